@@ -86,6 +86,8 @@ pub enum StarknetSierraCompilationError {
     DuplicateEntryPointSelector { selector: BigUint },
     #[error("Duplicate entry point function index {index}.")]
     DuplicateEntryPointSierraFunction { index: usize },
+    #[error("Unexpected entry point cost.")]
+    UnexpectedEntryPointCost,
     #[error(
         "Cannot compile Sierra version {version_in_contract} with the current compiler (sierra \
          version: {version_of_compiler})"
@@ -573,22 +575,34 @@ impl CasmContractClass {
                         let code_offset = cairo_program.debug_info.sierra_statement_info
                             [statement_id.0]
                             .start_offset;
-                        assert_eq!(
-                            metadata.gas_info.function_costs[function_id],
-                            CostTokenMap::from_iter([(
-                                CostTokenType::Const,
-                                ENTRY_POINT_COST as i64
-                            )]),
-                            "Unexpected entry point cost."
-                        );
-                        CasmContractEntryPoint {
+                        require(
+                            metadata.gas_info.function_costs[function_id]
+                                == CostTokenMap::from_iter([(
+                                    CostTokenType::Const,
+                                    ENTRY_POINT_COST as i64,
+                                )]),
+                        )
+                        .ok_or(StarknetSierraCompilationError::UnexpectedEntryPointCost)?;
+                        Ok(CasmContractEntryPoint {
                             selector: contract_entry_point.selector,
                             offset: code_offset,
                             builtins,
-                        }
+                        })
                     })
-                    .collect_vec()
+                    .collect::<Result<Vec<_>, StarknetSierraCompilationError>>()
             };
+        let external = as_casm_entry_points(
+            contract_class.entry_points_by_type.external,
+            external_infos,
+        )?;
+        let l1_handler = as_casm_entry_points(
+            contract_class.entry_points_by_type.l1_handler,
+            l1_handler_infos,
+        )?;
+        let constructor = as_casm_entry_points(
+            contract_class.entry_points_by_type.constructor,
+            constructor_infos,
+        )?;
 
         let pythonic_hints = if add_pythonic_hints {
             Some(
@@ -611,20 +625,7 @@ impl CasmContractClass {
             bytecode_segment_lengths,
             hints,
             pythonic_hints,
-            entry_points_by_type: CasmContractEntryPoints {
-                external: as_casm_entry_points(
-                    contract_class.entry_points_by_type.external,
-                    external_infos,
-                ),
-                l1_handler: as_casm_entry_points(
-                    contract_class.entry_points_by_type.l1_handler,
-                    l1_handler_infos,
-                ),
-                constructor: as_casm_entry_points(
-                    contract_class.entry_points_by_type.constructor,
-                    constructor_infos,
-                ),
-            },
+            entry_points_by_type: CasmContractEntryPoints { external, l1_handler, constructor },
         };
 
         Ok((casm_contract_class, cairo_program.debug_info))
